@@ -158,7 +158,13 @@ class SimTime:
     def __init__(self, thread, injections):
         self.now = 1000.0
         self.t = thread
-        self.todo = sorted(injections, key=lambda x: x['at_ms'])
+        self.todo = sorted((x for x in injections if not x.get('at_send')), key=lambda x: x['at_ms'])
+        # messages that another thread enqueues WHILE the send thread hands a datagram to the socket
+        self.at_send = {}
+        for x in injections:
+            if x.get('at_send'):
+                self.at_send.setdefault(x['at_send'], []).append(x)
+        self.snap = any(x.get('snap') for x in injections)   # the sleep may overshoot up to the next due time
         self.enqueued = []
         self.steps = 0
         self.in_hand = False      # the loop has taken an entry from the queue and not transmitted it yet
@@ -189,11 +195,20 @@ class SimTime:
             self.t._quit_send_event.set()
             raise RuntimeError('send loop does not finish')
         self.now += max(float(d), 0.0)
+        if self.snap and not self.t._send_queue.empty():
+            head = self.t._send_queue.queue[0].send_time
+            if self.now < head <= self.now + max(float(d), 0.0):
+                self.now = head      # a sleep that lasts a little longer: the poll happens exactly at a due time
         self.inject()
 
     def inject(self):
         while self.todo and 1000.0 + self.todo[0]['at_ms'] / 1000.0 <= self.now + 1e-9:
-            x = self.todo.pop(0)
+            self.enqueue(self.todo.pop(0))
+        if not self.todo:
+            self.t._quit_send_event.set()      # nothing more will come: the loop ends when the queue is drained
+
+    def enqueue(self, x):
+        if True:
             fr.d0, fr.g = x['d0'], x['g']
             before = list(self.t._send_queue.queue)
             self.t._repeated_enqueue_msg(x['id'], getattr(nt, x['params']))
@@ -202,8 +217,6 @@ class SimTime:
             self.log += [['P', self.exact(e.send_time), e.repeat] for e in new]
             self.enqueued += [[x['id'], e.repeat, round((e.send_time - 1000.0) * 1e6), round((self.now - 1000.0) * 1e6),
                                not before and not self.in_hand] for e in new]
-        if not self.todo:
-            self.t._quit_send_event.set()      # nothing more will come: the loop ends when the queue is drained
 
 
 class SimQueue(queue.PriorityQueue):
@@ -238,10 +251,12 @@ def run_sendloop(injections):
     t._outbound_selector = FakeSelector()
 
     def record(q_msg, s):
-        sim.in_hand = False
         sim.log.append(['T', sim.exact(sim.now), True])
         sent_x.append([sim.exact(sim.now), sim.exact(q_msg.send_time)])
         sent.append([q_msg.msg, q_msg.repeat, round((sim.now - 1000.0) * 1e6)])
+        for x in sim.at_send.pop(len(sent), []):      # another thread calls add_outbound_message during sendto()
+            sim.enqueue(x)
+        sim.in_hand = False
     t._send_msg = record
     old = nt.time
     nt.time = sim
